@@ -332,7 +332,9 @@ def weave_function(src_fn, spec, path, W, opts, meta):
             for c in [c for c in spec.of("body-start") if c.arg == n]:
                 add(lo + 1, "\n" + c.body + "\n")
             for c in [c for c in spec.of("body-end") if c.arg == n]:
-                add(lc, "\n" + c.body + "\n")
+                pk = prev_sig(toks, lc)
+                semi = "" if toks[pk].text in (";", "}", "{") else ";"  # loop bodies have type ()
+                add(lc, semi + "\n" + c.body + "\n")
         for c in spec.of("before"):
             for hn, (a, b) in enumerate(find_anchor(toks[:body_close + 1], c.name, 1 if c.arg is None else c.arg), 1):
                 add(a, "\n" + c.body + "\n", ob("hint", c, {"name": "%s#%d" % (c.name, hn)}) if c.tags else None)
@@ -435,8 +437,8 @@ def site_obligations(path, woven_text, contracted_names):
 
 
 # --------------------------------------------------------------------------- main assembly
-def rewrite_item_text(src, S, log, sites, is_fn=True):
-    src = rules.expand_local_macros(src, S.macros, log)
+def rewrite_item_text(src, S, log, sites, is_fn=True, outline=None):
+    src = rules.expand_local_macros(src, S.macros, log, outline)
     src = rules.drop_log_macros(src, log)
     src = rules.panics_to_obligations(src, log, sites)
     src = rules.rewrite_format(src, log)
@@ -522,14 +524,33 @@ def build(repo, contracts_dir, out_dir, vacuity=False, only=None):
             contracted_names.add(p.split("::")[-1])
     contracted_names |= {"unwrap"} - {"unwrap"}
 
+    # R2b: outlined macros become free functions with the macro body verbatim
+    for mname, mcfg in cfg.get("outline_macros", {}).items():
+        md = S.macros.get(mname)
+        if md is None:
+            raise ExtractError("outlined macro %s not found in source (lost anchor)" % mname)
+        body = md.body
+        for pn in md.params:
+            body = re.sub(r"\$" + pn + r"\b", pn, body)
+        if "$" in body:
+            raise ExtractError("outlined macro %s: unsubstituted $ in body" % mname)
+        ptxt = ", ".join("%s: %s" % (pn, mcfg["params"][pn]) for pn in md.params)
+        ftxt = "fn verif_macro_%s(%s) {%s}" % (mname, ptxt, body)
+        ft = tokenize(ftxt)
+        it = split_items(ft, 0, len(ft))[0]
+        class _P:  # pseudo parent
+            kind = "free"
+            head_a = 0
+            body_open = 0
+        S.fns["macro %s" % mname] = (ft, it, None)
     # group functions by impl header to re-create impl blocks
     groups = []  # (header_text, [paths])
     for p in cfg["functions"]:
         if p not in S.fns:
             raise ExtractError("function %s not found in source (lost anchor)" % p)
         toks, item, parent = S.fns[p]
-        if parent.kind == "impl":
-            hdr = text(toks, parent.head_a, parent.body_open).strip()
+        if parent is None:
+            hdr = "// outlined macro (R2b)"
         else:
             hdr = text(toks, parent.head_a, parent.body_open).strip()
         if groups and groups[-1][0] == hdr:
@@ -546,21 +567,27 @@ def build(repo, contracts_dir, out_dir, vacuity=False, only=None):
         if hdr2.startswith("pub "):
             hdr2 = hdr2[4:]
         hdr2 = hdr2.replace("engine::", "")
-        W.emit("\n" + hdr2 + " {\n")
+        free = hdr2.startswith("//")
+        W.emit("\n" + hdr2 + ("\n" if free else " {\n"))
         extra = cfg.get("trait_extra", {}).get(hdr2.split()[1] if hdr2.startswith("trait") else "", None)
         if extra:
             W.emit(open(os.path.join(contracts_dir, extra)).read() + "\n")
         for p in paths:
             toks, item, parent = S.fns[p]
             raw = strip_attrs(toks, item)
-            src_line = S.line_of(toks, item.head_a)
-            src_end = S.line_of(toks, item.b - 1)
+            if parent is None:
+                mit = [x for x in S.eitems if x.kind == "macro_rules" and x.name == p.split()[1]][0]
+                src_line = S.line_of(S.etoks, mit.head_a)
+                src_end = S.line_of(S.etoks, mit.b - 1)
+            else:
+                src_line = S.line_of(toks, item.head_a)
+                src_end = S.line_of(toks, item.b - 1)
             sites = []
             flog = []
             txt = raw
-            if parent.kind == "impl" and not re.search(r"\bfor\b", hdr):
+            if parent is not None and parent.kind == "impl" and not re.search(r"\bfor\b", hdr):
                 txt = rules.lower_visibility(txt)
-            txt = rewrite_item_text(txt, S, flog, sites)
+            txt = rewrite_item_text(txt, S, flog, sites, outline=cfg.get("outline_macros"))
             txt = txt.replace("engine::", "") if toks is S.ltoks else txt
             for (a, b) in cfg.get("text_subst", {}).get(p, []):
                 if a not in txt:
@@ -591,7 +618,7 @@ def build(repo, contracts_dir, out_dir, vacuity=False, only=None):
                 W.obligations.append(o)
             start = W.line
             W.emit(woven + "\n\n")
-            fn_records.append({"path": p, "src_file": "src/engine.rs" if toks is S.etoks else "src/lib.rs",
+            fn_records.append({"path": p, "src_file": "src/lib.rs" if toks is S.ltoks else "src/engine.rs",
                                "src_line_start": src_line, "src_line_end": src_end,
                                "woven_line_start": start, "woven_line_end": W.line - 1,
                                "rules_applied": flog, "sites": sites,
@@ -601,7 +628,7 @@ def build(repo, contracts_dir, out_dir, vacuity=False, only=None):
                                   "text": "bounds, overflow, termination, callee preconditions not listed "
                                           "separately, type invariants",
                                   "line_start": start, "line_end": W.line - 1, "fallback": True})
-        W.emit("}\n")
+        W.emit("\n" if free else "}\n")
     # global proof items (lemmas) from `=== spec` sections
     for g in gl:
         W.emit("\n" + g.body + "\n")
